@@ -271,19 +271,20 @@ impl Expr {
 
         let res = self.eval(var_env)?;
         macro_rules! apply_op {
-            ($f:ident) => {
+            ($fint:ident, $ffloat:ident) => {
                 match res {
-                    EvaluationResult::Integer(i) => EvaluationResult::from(i.$f()),
-                    EvaluationResult::Float(f) => EvaluationResult::from(f.$f()),
+                    EvaluationResult::Integer(i) => EvaluationResult::from(i.$fint()),
+                    EvaluationResult::Float(f) => EvaluationResult::from(f.$ffloat()),
                 }
             };
         }
 
         Ok(match op {
             UnOpKind::Not => (!res.as_integer()).into(),
-            UnOpKind::Abs => apply_op!(abs),
-            UnOpKind::Sgn => apply_op!(signum),
-            UnOpKind::Neg => apply_op!(neg),
+            // Integer operations wrap around like the binary operators do.
+            UnOpKind::Abs => apply_op!(wrapping_abs, abs),
+            UnOpKind::Sgn => apply_op!(signum, signum),
+            UnOpKind::Neg => apply_op!(wrapping_neg, neg),
             UnOpKind::Sin => res.as_float().sin().into(),
             UnOpKind::Cos => res.as_float().cos().into(),
             UnOpKind::Tan => res.as_float().tan().into(),
